@@ -13,7 +13,7 @@ ID = "C20"
 LEVEL = "model_checking"
 RULE = ("states = distinct (process-wide cookie jar snapshot, reference jar, remaining depth); transitions = every response from the alphabet "
         "(1 or 2 Set-Cookie lines x Domain in {example.com, .example.com, EXAMPLE.com, sub.example.com, other.org, absent}) applied through a "
-        "real handshake; in every new state the Cookie header for 7 targets x {no caller cookie, caller cookie} is compared; distinct_nontrivial = states")
+        "real handshake; in every new state the Cookie header for 10 targets x {no caller cookie, caller cookie} is compared; distinct_nontrivial = states")
 ASSUMPTIONS = ["one Domain per response; cookie names are letters only, so sorting by name and by name=value coincide",
                "the transport is handed to connect() through the socket= option (the resolver plays no part in cookie handling)"]
 TASK_LIMIT_S = {"quick": 240, "thorough": 3000}
@@ -22,7 +22,8 @@ DOMAINS = ["example.com", ".example.com", "EXAMPLE.com", "sub.example.com", "oth
 PAY_FULL = [[("a", "1")], [("a", "2")], [("ab", "1")], [("ab", "2")], [("b", "1")], [("b", "2")],
             [("a", "1"), ("b", "2")], [("a", "2"), ("b", "1")], [("a", "1"), ("ab", "2")], [("ab", "1"), ("a", "2")], [("ab", "2"), ("b", "1")], [("b", "2"), ("ab", "1")]]
 PAY_SMALL = [[("a", "1")], [("a", "2")], [("b", "1")], [("a", "1"), ("b", "2")]]
-TARGETS = ["example.com", "EXAMPLE.COM", "sub.example.com", "x.sub.example.com", "badexample.com", "example.com.evil.org", "other.org"]
+TARGETS = ["example.com", "EXAMPLE.COM", "sub.example.com", "x.sub.example.com", "badexample.com", "example.com.evil.org", "other.org",
+           "example.com:8080", "sub.example.com:443", "badexample.com:9000"]  # an explicit port does not change which domain a host belongs to
 
 
 def bounds(tier):
@@ -135,7 +136,7 @@ class Harness:
                     got = do_connect(t, caller, None, header)
                     items = []
                     for dd, cookies in ref.items():
-                        if covers(dd, t.lower()):
+                        if covers(dd, t.lower().split(":")[0]):
                             items += ["%s=%s" % kv for kv in cookies.items()]
                     parts = []
                     if items:
@@ -152,7 +153,8 @@ class Harness:
 
 def target_class(t):
     return {"example.com": "domain", "EXAMPLE.COM": "domain-upper", "sub.example.com": "subdomain", "x.sub.example.com": "sub-subdomain",
-            "badexample.com": "lookalike-prefix", "example.com.evil.org": "lookalike-suffix", "other.org": "other"}[t]
+            "badexample.com": "lookalike-prefix", "example.com.evil.org": "lookalike-suffix", "other.org": "other",
+            "example.com:8080": "domain-with-port", "sub.example.com:443": "subdomain-with-port", "badexample.com:9000": "lookalike-with-port"}[t]
 
 
 def run_task(desc):
